@@ -1,3 +1,4 @@
+import re
 from itertools import islice
 
 import renew
@@ -98,12 +99,8 @@ class Constant(ModelNode):
                 return None
 
     def dependencies(self):
-        def sub_(x, y):
-            return x.replace(y, " ")
-
-        for symbol in six.reduce(sub_, "()+-", self.value).split():
-            if not symbol.isdigit():
-                yield symbol
+        for symbol in re.findall(r"(?<![0-9A-Za-z_])[A-Za-z_][A-Za-z0-9_]*", self.value):
+            yield symbol
 
 
 class EnumMember(Constant):
